@@ -207,8 +207,21 @@ fn worker(prop: &str, tier: &str, tag: &str) -> i32 {
             let r1 = campaign::run(&plan, cases / 2, seed, 1, &prefixes, plan.profile.max_steps, threads());
             merge(&mut total, r1);
             if total.failure.is_none() && total.internal.is_empty() {
-                let r2 = campaign::run(&plan, cases / 2, seed, 2, &prefixes, max_steps, threads());
+                let mut p2 = profiles::plan(prop).unwrap();
+                p2.opts.reuse_addresses = matches!(prop, "C14" | "C20");
+                let r2 = campaign::run(&p2, cases / 2, seed, 2, &prefixes, max_steps, threads());
                 merge(&mut total, r2);
+            }
+        } else if matches!(prop, "C14" | "C20") {
+            // second half with address reuse: released Gc blocks are really freed at once, so that
+            // identity checks by address can be confused by a new allocation at an old address
+            let r = campaign::run(&plan, cases / 2, seed, 0, &prefixes, max_steps, threads());
+            merge(&mut total, r);
+            if total.failure.is_none() && total.internal.is_empty() {
+                let mut p2 = profiles::plan(prop).unwrap();
+                p2.opts.reuse_addresses = true;
+                let r = campaign::run(&p2, cases / 2, seed, 3, &prefixes, max_steps, threads());
+                merge(&mut total, r);
             }
         } else {
             let r = campaign::run(&plan, cases, seed, 0, &prefixes, max_steps, threads());
@@ -226,7 +239,7 @@ fn worker(prop: &str, tier: &str, tag: &str) -> i32 {
             let small = campaign::shrink(&plan, f.case);
             let rr = driver::run_case(&small, plan.opts);
             if let Some(v) = campaign::first_relevant(plan.prop, &rr) {
-                r.failure = Some(campaign::Failure { case: small, violation: v, shard: usize::MAX });
+                r.failure = Some(campaign::Failure { case: small, violation: v, shard: usize::MAX, reuse_addresses: plan.opts.reuse_addresses });
             }
         }
         enum_info = serde_json::json!({"alphabet": k, "depth": depth, "presets": presets, "histories": n, "exhaustive_for": "all sequences of 1..=depth letters of the reduced alphabet (each followed by Settle and a full read-back), per preset"});
@@ -288,7 +301,7 @@ fn worker(prop: &str, tier: &str, tag: &str) -> i32 {
     }
     if let Some(f) = &total.failure {
         violations = 1;
-        let path = evidence::write_failure(&root, prop, &f.case, &f.violation);
+        let path = evidence::write_failure(&root, prop, &f.case, &f.violation, f.reuse_addresses);
         println!("violated oracle: {} {} — {}", f.violation.prop, f.violation.tag, f.violation.msg);
         println!("minimal history ({} steps): {}", f.case.steps.len(), f.case.to_json());
         println!("VIOLATION property={prop} replay={path}");
@@ -366,7 +379,8 @@ fn replay(path: &str) -> i32 {
         }
     };
     let c09 = prop.as_deref() == Some("C09");
-    let r = driver::run_case(&case, exec::ExecOpts { hook: true, c09, ..Default::default() });
+    let reuse = serde_json::from_str::<serde_json::Value>(&s).ok().and_then(|v| v.get("reuse_addresses").and_then(|b| b.as_bool())).unwrap_or(false);
+    let r = driver::run_case(&case, exec::ExecOpts { hook: true, c09, reuse_addresses: reuse, max_live: if c09 { 3000 } else { 0 }, ..Default::default() });
     println!("history ({} steps): {}", case.steps.len(), case.to_json());
     for v in &r.violations {
         println!("oracle {} {} at step {}: {}", v.prop, v.tag, v.step, v.msg);
